@@ -16,6 +16,8 @@ DECIDED = ('(a) the payload loop requests min(remaining, buffer) per iteration a
            'buffer size; (e) every RequestError subclass of the package is mapped by errors_map/_raise to a 4xx response '
            'and BodyMixin._body converts reader errors through _raise; (f) no fixed-width read(k>1) is compared with a '
            'k-byte constant (short reads would reject legal encodings).')
+DECIDED_MORE = ('Also: escape analysis of the decoder incl. next() on a sentinel iterator and constant indexing of possibly empty text; count-up payload loop.')
+DECIDED = DECIDED + ' ' + DECIDED_MORE
 NOT_DECIDED = ('which spellings of the size line int(x, 16) accepts (sign, underscores, 0x prefix): value semantics of the '
                'conversion; equality of decoded payload with the sent payload beyond the loop-invariant premises above.')
 ASSUMPTIONS = ['wsgi.input.read(n) returns at most n bytes (PEP 3333)', 'int(b, 16) raises ValueError on non-hex text']
